@@ -46,11 +46,13 @@ def gen_section(rnd, sync, nin, nout, rsize):
             g = rnd.choice(ONE)
             ops.append(("(SPlain (%s %d))" % ({"inc": "IInc", "dec": "IDec", "clr": "IClr"}[g], r1), "%s r%d" % (g, r1)))
         elif c < 80:
-            v = rnd.choice([0, 1, 2, 7, 31, rnd.randrange(1 << min(rsize, 8))])
+            v = rnd.choice([0, 1, 2, 7, 10, 31, 64, rnd.randrange(1 << min(rsize, 8))])
+            # "numeric literals load the value they denote": the same value in the notations of the number library
+            lit = rnd.choice(["%d" % v, "%d" % v, "0d%d" % v, "0d0%d" % v, "0%d" % v, "0x%x" % v, "0b%s" % bin(v)[2:], "0u%d" % v])
             if rnd.random() < 0.5:
-                ops.append(("(SMovRN %d %d%%N)" % (r1, v), "mov r%d, %d" % (r1, v)))
+                ops.append(("(SMovRN %d %d%%N)" % (r1, v), "mov r%d, %s" % (r1, lit)))
             else:
-                ops.append(("(SPlain (IRset %d %d%%N))" % (r1, v), "rset r%d, %d" % (r1, v)))
+                ops.append(("(SPlain (IRset %d %d%%N))" % (r1, v), "rset r%d, %s" % (r1, lit)))
         elif c < 85:
             ops.append(("(SMovRR %d %d)" % (r1, r2), "mov r%d, r%d" % (r1, r2)))
         elif c < 92:
@@ -82,10 +84,12 @@ def gen_source(rnd):
     sync = rnd.random() < 0.4
     ncp = rnd.choice([1, 1, 2, 3])
     cps = []
+    # section names are the user's: numbered, or one name and the names the assembler itself derives from it (X_0, X_1)
+    sect_names = rnd.choice([["code0", "code1", "code2"], ["w", "w_0", "w_1"], ["w_0", "w", "w_00"], ["main", "main_1", "main_0"]])
     for p in range(ncp):
         nin, nout = rnd.choice([0, 1, 1, 2]), rnd.choice([1, 1, 2])
         items, text, first = gen_section(rnd, sync, nin, nout, rsize)
-        cps.append({"name": "cp%s" % "abc"[p], "sect": "code%d" % p, "nin": nin, "nout": nout, "items": items, "text": text, "entry_first": first})
+        cps.append({"name": "cp%s" % "abc"[p], "sect": sect_names[p], "nin": nin, "nout": nout, "items": items, "text": text, "entry_first": first})
     lines = []
     order = list(range(ncp))
     rnd.shuffle(order)
